@@ -45,7 +45,12 @@ Ltac model_unfold :=
     sl_range, sl_bytes, decode_rune_z in *;
   cbn [fst snd data off cap isnil last_read] in *.
 
+Ltac panic_calc :=
+  repeat match goal with |- context [panic_of ?m] =>
+    let v := eval vm_compute in (panic_of m) in change (panic_of m) with v end.
+
 Ltac leaf :=
+  panic_calc;
   change (Z.to_nat 0) with 0%nat in *;
   cbn [fst snd data off cap isnil last_read firstn skipn app length] in *; rewrite ?app_length in *;
   try reflexivity; try discriminate; try lia;
@@ -102,7 +107,7 @@ Proof.
 Lemma gen_buf_truncate : forall nil d sp o l n, 0 <= o <= Z.of_nat (length d) ->
   bview nil res_unit (Buffers.buf_truncate (d, sp) o l n) = cstep (fun c => c) 0 (abs_pc nil ((d, sp), o, l)) (OTruncate n).
 Proof.
-  intros nil d sp o l n H. buf_unfold. model_unfold. unfold panic_of.
+  intros nil d sp o l n H. buf_unfold. model_unfold.
   repeat (gen_split; gen_inj; model_unfold; try discriminate; try lia); leaf.
   slice_norm; leaf.
 Qed.
@@ -131,4 +136,15 @@ Proof.
   all: try (exfalso; lia).
   all: rewrite firstn_app_le by (rewrite firstn_length; lia); rewrite firstn_firstn, Nat.min_id.
   all: repeat f_equal; try lia.
+  Qed.
+
+(* WriteTo: the writer answers (m, e); it is handed the unread bytes *)
+Lemma gen_buf_write_to : forall nil d sp o l m (e : bool), 0 <= o <= Z.of_nat (length d) -> 0 <= m ->
+  bview_wt nil (Buffers.buf_write_to (d, sp) o l tt m (if e then EUser else ENil) []) =
+  cstep (fun c => c) 0 (abs_pc nil ((d, sp), o, l)) (OWriteTo m e).
+Proof.
+  intros nil d sp o l m e H Hm. unfold Buffers.buf_write_to, buf_write_to_ref. buf_unfold. model_unfold.
+  unfold bview_wt, err_is_enil. destruct e;
+  repeat (gen_split; gen_inj; model_unfold; cbn [fst snd concat app negb] in *; try discriminate; try lia);
+  rewrite ?app_nil_r; leaf.
   Qed.
